@@ -344,14 +344,14 @@ def c05_rules(ctx):
                         captured.setdefault(b, set()).add(o.var)
         ctx.inst("C05-capture", "%s#%d/binders" % (kw, idx), {"template_binders": sorted(tb), "capture": {k: sorted(v) for k, v in captured.items()}})
         for b, vs in sorted(captured.items()):
-            ctx.report("C05-capture", "%s/%s/binder/%s" % (kw, rid(r), b),
+            ctx.report("C05-capture", "%s/binder/%s" % (kw, b),
                        "rule %d of %s introduces the binder `%s` and expands the user's sub-form(s) %s inside its scope; the expander is "
                        "not hygienic, so a user variable named `%s` is captured" % (idx, kw, b, sorted(vs), b), GRAMMAR)
         # (b) free identifiers introduced by the template (resolved in the user's scope)
         frees = sorted({n for n, k, c in sk.free if n not in known_kw and n not in tb})
         ctx.inst("C05-capture", "%s#%d/free" % (kw, idx), frees)
         for n in frees:
-            ctx.report("C05-capture", "%s/%s/free/%s" % (kw, rid(r), n),
+            ctx.report("C05-capture", "%s/free/%s" % (kw, n),
                        "rule %d of %s refers to `%s`, which is not a keyword: it is looked up in the *user's* environment (unbound "
                        "without (scheme base), and wrong if the user rebinds it)" % (idx, kw, n), GRAMMAR)
 
